@@ -54,7 +54,8 @@ PROPS = {
         dict(kind="macro", profile="C04", preds="limit", mask="nkeys,qset", quick=300, thorough=8000)]),
     "C05": dict(theorems=["Props/C05.v", "parts/memest/coq|CLM|Props_C05_memest.v"], parts=[
         dict(kind="core", profile="C05", mask="keys,qset,size", preds="c05,wf", quick=Q, thorough=T),
-        dict(kind="ext", name="memest", quick=1500, thorough=30000, env={"MEMEST_TARGET": BUILD + "/target"})]),
+        dict(kind="ext", name="memest", quick=1500, thorough=30000, env={"MEMEST_TARGET": BUILD + "/target"}),
+        dict(kind="macro", profile="C05", preds="mem", mask="keys,qset", quick=300, thorough=8000)]),
     "C06": dict(theorems=["Props/C06.v"], parts=[
         dict(kind="core", profile="C06", mask="out,keys,qset,born,stats", preds="c06", quick=Q, thorough=T),
         dict(kind="macro", profile="C06", preds="ttl", mask="ret,keys,born", quick=300, thorough=8000)]),
@@ -118,6 +119,7 @@ class Run:
         self.nontrivial_hashes = set()
         self.replay_n = 0
         self.ext_nontrivial = 0
+        self.rules = []
 
     def replay_path(self, tag):
         os.makedirs(BUILD + "/replay", exist_ok=True)
@@ -356,6 +358,9 @@ def part_core(run, part):
     run.cov["histograms"]["core_ops"] = geninfo["ops"]
     run.cov["histograms"]["core_events"] = stats
     run.cov["samples"] += geninfo["samples"][:2]
+    run.rules.append("core: committed corpus of minimised failures + histories generated from VERIF_SEED by tools/gen_cases.py "
+                     "(one splitmix64 stream; configurations sampled per property profile); non-trivial = the implementation's trace "
+                     "contains an eviction or an expiry; distinct = distinct (configuration, operation list) texts")
     run.cov["parts"].append(dict(kind="core", profile=part["profile"], mask=mask, preds=preds, cases=len(verdicts),
                                  corpus_cases=len(split_cases(corpus))))
     # distinct non-trivial: distinct (config, ops) texts among cases in which an eviction or an expiry happened
@@ -494,6 +499,9 @@ def part_macro(run, part):
     run.cov["histograms"]["macro_events"] = geninfo["events"]
     run.cov["histograms"]["macro_observed"] = stats
     run.cov["samples"] += geninfo["samples"][:1]
+    run.rules.append("macro: event histories over the generated corpus of macro-expanded functions (tools/gen_mcases.py, VERIF_SEED), "
+                     "one fresh process per case; non-trivial = some key is called at least twice (a hit or a recomputation is exercised); "
+                     "distinct = distinct event lists")
     run.cov["parts"].append(dict(kind="macro", profile=part["profile"], preds=preds, mask=mask, cases=len(verdicts),
                                  corpus_functions=sum(1 for _ in open(BUILD + "/corpus/corpus_table.txt"))))
     # distinct non-trivial: distinct event lists among cases in which some call was served from the cache
@@ -563,6 +571,7 @@ def part_ext(run, part):
     run.cov["traces_validated_against_impl"] += oks
     run.cov["histograms"][name] = stats
     run.cov["samples"] += [dict(part=name, line=l[:300]) for l in sample]
+    run.rules.append("%s: parts/%s/run.sh with VERIF_SEED; every agreeing case of the part's own generator is counted (distinctness not measured: random typed inputs, collisions improbable)" % (name, name))
     run.cov["parts"].append(dict(kind="ext", name=name, cases=oks + len(bad), cmd="parts/%s/run.sh %d %d" % (name, run.seed, n)))
     run.ext_nontrivial += oks
     replay_hdr = "part=%s seed=%d count=%d\nrerun: %s/parts/%s/run.sh %d %d %s\n" % (name, run.seed, n, ROOT, name, run.seed, n, work)
@@ -620,6 +629,7 @@ def part_locks(run, part):
     run.ext_nontrivial += oks
     run.cov["histograms"]["lock_traces"] = stats
     run.cov["samples"] += [dict(lock_trace=l.strip()[:300]) for l in open(tf).readlines()[3:5]]
+    run.rules.append("locks: one recorded lock trace per operation kind per global/async corpus function; every accepted trace counts")
     run.cov["parts"].append(dict(kind="locks", traces=oks + len(bad)))
     run.lock_problems = fails + bad
     if rc != 0 and not (fails or bad):
@@ -743,6 +753,9 @@ def part_sched(run, part):
     run.cov["exhaustive"] = geninfo["schedules"] == geninfo["enumeration"]
     some = sorted(outs.items())[:1]
     run.cov["samples"] += [dict(schedule=l) for _, ls in some for l in ls[:12]]
+    run.rules.append("sched: two-thread single-preemption schedules (operation pair x pause point, tools/gen_sched.py; seeded sample of the "
+                     "enumeration in the quick tier, all of it in the thorough tier) + special families + overlapping lookups + stress runs; "
+                     "non-trivial = the pause point was reached (the interleaving really happened)")
     run.cov["parts"].append(dict(kind="sched", mode=want, schedules=len(outs)))
     # C17: a lock-order problem seen in the traces without a deadlock replay found
     if want == "deadlock" and getattr(run, "lock_problems", None) and reported == 0:
@@ -881,10 +894,7 @@ def run_check(pid, tier, seed, replay=None):
         print("VIOLATION property=%s replay=%s%s" % (pid, v["replay"], tail))
         print("  " + v["what"][:600])
     run.cov["distinct_nontrivial"] = len(run.nontrivial_hashes) + run.ext_nontrivial
-    run.cov["rule"] = ("cases = committed corpus of minimised failures + histories generated from VERIF_SEED by tools/gen_cases.py "
-                       "(one splitmix64 stream; configuration product sampled per property profile); a case is non-trivial if "
-                       "the implementation's trace contains at least one eviction or expiry; distinct = distinct (configuration, "
-                       "operation list) texts among those")
+    run.cov["rule"] = " || ".join(run.rules) if run.rules else "theorem re-check only"
     run.cov["trusted_base"] = COQ_TRUSTED
     ev = dict(property_id=pid, tier=tier, seed=seed, level="proof", coverage=run.cov,
               assumptions=["agreement between model and implementation is established on the explored traces only",
